@@ -209,6 +209,34 @@ pub fn main(args: &Args) -> std::io::Result<()> {
                 continue;
             }
         }
+        // every way of building the measurements gives the same table (also an object re-initialised after other use)
+        {
+            let same = catch(AssertUnwindSafe(|| {
+                let base = PathMeasurements::from_path(&path, tol).verif_table();
+                let a = PathMeasurements::from_path_slice(&path.as_slice(), tol).verif_table();
+                let b = PathMeasurements::from_iter(path.id_iter(), &path, tol).verif_table();
+                let mut m = PathMeasurements::empty();
+                let mut other = lyon_path::Path::builder();
+                other.begin(lyon_path::math::point(100.0, 100.0));
+                other.line_to(lyon_path::math::point(130.0, 140.0));
+                other.quadratic_bezier_to(lyon_path::math::point(140.0, 100.0), lyon_path::math::point(150.0, 150.0));
+                other.end(true);
+                let other = other.build();
+                m.initialize_with_path(&other, tol);
+                m.initialize_with_path(&path, tol);
+                let c = m.verif_table();
+                m.initialize_with_path_slice(other.as_slice(), tol);
+                m.initialize_with_path_slice(path.as_slice(), tol);
+                let d = m.verif_table();
+                m.initialize(other.id_iter(), &other, tol);
+                m.initialize(path.id_iter(), &path, tol);
+                let e = m.verif_table();
+                base == a && base == b && base == c && base == d && base == e
+            }));
+            if same != Some(true) {
+                st.fail(jobj(&[("what", jstr("the ways of building / re-initialising PathMeasurements disagree")), ("input", jstr(&format!("{:?} tol {}", path, tol)))]));
+            }
+        }
         let r = catch(AssertUnwindSafe(|| {
             let m = PathMeasurements::from_path(&path, tol);
             let (table, kinds) = m.verif_table();
